@@ -3,6 +3,7 @@ package main
 import (
 	"bufio"
 	"bytes"
+	"crypto/sha1"
 	"encoding/json"
 	"errors"
 	"flag"
@@ -15,24 +16,43 @@ import (
 	getoptions "github.com/DavidGamba/go-getoptions"
 )
 
+// OracleHit - a direct (model independent) oracle that fired.
+type OracleHit struct {
+	Key  string `json:"key"`
+	What string `json:"what"`
+}
+
 // ParseObs - what one Parse call showed.
 type ParseObs struct {
-	Index     int      `json:"index"`
-	Seed      int64    `json:"seed"`
-	Prog      *ProgDef `json:"prog"`
-	Argv      []string `json:"argv"`
-	ArgvQ     []string `json:"argv_q"`
-	Err       string   `json:"err,omitempty"`
-	HasErr    bool     `json:"has_err"`
-	IsParsing bool     `json:"is_parsing"`
-	Remaining []string `json:"remaining"`
-	RemNil    bool     `json:"remaining_nil"`
-	Writer    string   `json:"writer"`
-	Panic     string   `json:"panic,omitempty"`
-	Hang      bool     `json:"hang,omitempty"`
-	BuildErr  string   `json:"build_err,omitempty"`
-	Kinds     []string `json:"kinds,omitempty"`
-	term      *T
+	Case              *int                   `json:"case"` // index in the case file, nil when no case was emitted
+	Key               string                 `json:"key"`
+	Seed              int64                  `json:"seed"`
+	Prog              *ProgDef               `json:"prog"`
+	Argv              []string               `json:"argv"`
+	ArgvQ             []string               `json:"argv_q"`
+	Err               string                 `json:"err,omitempty"`
+	ErrKind           string                 `json:"err_kind,omitempty"`
+	HasErr            bool                   `json:"has_err"`
+	IsParsing         bool                   `json:"is_parsing"`
+	Remaining         []string               `json:"remaining"`
+	RemNil            bool                   `json:"remaining_nil"`
+	Writer            string                 `json:"writer"`
+	Panic             string                 `json:"panic,omitempty"`
+	Hang              bool                   `json:"hang,omitempty"`
+	BuildErr          string                 `json:"build_err,omitempty"`
+	Values            []string               `json:"values,omitempty"`
+	CalledBeforeCount int                    `json:"called_before"`
+	CalledAfterCount  int                    `json:"called_after"`
+	Hist              []string               `json:"hist"`
+	Nontrivial        map[string]bool        `json:"nontrivial"`
+	Oracle            map[string][]OracleHit `json:"oracle"`
+	Sample            map[string]interface{} `json:"sample"`
+	term              *T
+}
+
+func jsonOf(v interface{}) string {
+	b, _ := json.Marshal(v)
+	return string(b)
 }
 
 func quoteAll(l []string) []string {
@@ -99,7 +119,8 @@ func floatTable(d *getoptions.VerifDump, argv []string) (map[string]*float64, []
 
 // runParse builds the program, runs Parse on argv and renders the Coq case.
 func runParse(idx int, seed int64, p *ProgDef, argv []string) *ParseObs {
-	obs := &ParseObs{Index: idx, Seed: seed, Prog: p, Argv: argv, ArgvQ: quoteAll(argv)}
+	obs := &ParseObs{Seed: seed, Prog: p, Argv: argv, ArgvQ: quoteAll(argv)}
+	obs.Key = fmt.Sprintf("%x", sha1.Sum([]byte(fmt.Sprintf("%#v|%q", jsonOf(p), argv))))
 	b, err := Build(p)
 	if err != nil {
 		obs.BuildErr = err.Error()
@@ -131,10 +152,12 @@ func runParse(idx int, seed int64, p *ProgDef, argv []string) *ParseObs {
 	case r = <-ch:
 	case <-time.After(10 * time.Second):
 		obs.Hang = true
+		obs.features()
 		return obs
 	}
 	if r.pan != nil {
 		obs.Panic = fmt.Sprint(r.pan)
+		obs.features()
 		return obs
 	}
 	obs.Writer = buf.String()
@@ -144,11 +167,20 @@ func runParse(idx int, seed int64, p *ProgDef, argv []string) *ParseObs {
 		obs.HasErr = true
 		obs.Err = r.err.Error()
 		obs.IsParsing = errors.Is(r.err, getoptions.ErrorParsing)
+		obs.ErrKind = classifyErr(obs.Err, obs.IsParsing)
 	}
 	post := b.Opt.VerifDumpTree()
-	for _, o := range pre.Options {
-		obs.Kinds = append(obs.Kinds, kindNames[o.Kind])
+	for i, o := range pre.Options {
+		if o.Called {
+			obs.CalledBeforeCount++
+		}
+		if post.Options[i].Called {
+			obs.CalledAfterCount++
+		}
+		obs.Values = append(obs.Values, fmt.Sprintf("%s(%s)=%s called=%v as=%q", o.Name, kindNames[o.Kind], tValue(post.Options[i]).SexpString(), post.Options[i].Called, post.Options[i].UsedAlias))
 	}
+	obs.features()
+	obs.Sample = map[string]interface{}{"mode": modeNames[p.Mode], "argv": obs.ArgvQ, "remaining": quoteAll(obs.Remaining), "err": obs.Err, "options": len(pre.Options), "commands": len(pre.Root.CommandKeys)}
 
 	specs := []*T{}
 	st0 := []*T{}
@@ -161,7 +193,7 @@ func runParse(idx int, seed int64, p *ProgDef, argv []string) *ParseObs {
 	tab, order := floatTable(pre, argv)
 	errT := Ctor("None")
 	if obs.HasErr {
-		errT = Ctor("Some", Pair(Str(obs.Err), Bool(obs.IsParsing)))
+		errT = Ctor("Some", Ctor("E", Str(obs.Err), Bool(obs.IsParsing), Ctor(obs.ErrKind)))
 	}
 	obs.term = Ctor("mkCase",
 		Ctor(modeNames[pre.Root.Mode]), Bool(pre.Root.MapKeysToLower),
@@ -238,11 +270,14 @@ func cmdParse(args []string) {
 			prog = nil
 			continue
 		}
-		enc.Encode(obs)
 		if obs.Panic != "" || obs.Hang {
-			fmt.Printf("IMPL-FAILURE index=%d panic=%q hang=%v\n", obs.Index, obs.Panic, obs.Hang)
+			enc.Encode(obs)
+			fmt.Printf("IMPL-FAILURE argv=%q panic=%q hang=%v\n", obs.Argv, obs.Panic, obs.Hang)
 			continue
 		}
+		ci := len(defs)
+		obs.Case = &ci
+		enc.Encode(obs)
 		defs = append(defs, obs.term)
 	}
 	if err := writeSexpCases(*out, defs); err != nil {
